@@ -343,6 +343,22 @@ func (c *Ctx) guardedBy(table []gField, minAccesses int) {
 				c.pass(construct, c.P.Pos(fn.Pos()), "tabled exemption: "+why, fmt.Sprintf("%d access(es)", len(acc)))
 				continue
 			}
+			// a function that is new relative to the pinned tree and is only
+			// ever called from exempt functions (a constructor split into
+			// newX + newXWithDeps) shares their exemption
+			if len(row.exempt) > 0 && isNewFunc(outermost(fn)) {
+				owners := c.ownersOf(outermost(fn), 0)
+				allExempt := len(owners) > 0
+				for _, o := range owners {
+					if _, ok := row.exempt[o]; !ok {
+						allExempt = false
+					}
+				}
+				if allExempt {
+					c.pass(construct, c.P.Pos(fn.Pos()), "new function called only from exempt function(s) "+join(owners), fmt.Sprintf("%d access(es)", len(acc)))
+					continue
+				}
+			}
 			r := res[fn]
 			var bad, sites []string
 			for _, a := range acc {
